@@ -118,7 +118,7 @@ def check_direct(case):
             # the application sends a request in the middle of the stream: the mirror only follows the server
             if wr["at"] % len(case["items"]) == i:
                 try:
-                    what = refclient.client_write(client, wr["k"])
+                    what = refclient.client_write(client, wr["k"], submit=wr.get("submit", True))
                 except Exception as e:  # noqa
                     f = lib_exception_failure(e, "client-write")
                     raise Failure(f.sig, f"before message {i}: {f.msg}")
@@ -191,7 +191,7 @@ def check_stream(case):
 
 direct_case = st.fixed_dictionaries({
     "items": streams.stream(40),
-    "writes": st.lists(st.fixed_dictionaries({"at": st.integers(0, 40), "k": st.integers(0, 30)}), max_size=3),
+    "writes": st.lists(st.fixed_dictionaries({"at": st.integers(0, 40), "k": st.integers(0, 30), "submit": st.booleans()}), max_size=3),
 })
 stream_case = st.fixed_dictionaries({"items": streams.stream(25), "frag": st.lists(st.sampled_from([1, 2, 3, 7, 64, 1024]), min_size=1, max_size=4), "for_blobs": st.booleans()})
 
